@@ -6,6 +6,8 @@ import (
 	"sync"
 	"time"
 
+	"github.com/uhppoted/uhppote-core/encoding/bcd"
+	"github.com/uhppoted/uhppote-core/types"
 	"github.com/uhppoted/uhppote-core/uhppote"
 
 	"verif/harness/adapter"
@@ -74,6 +76,9 @@ func c01Check(c *Ctx, mc memClient, cs c01Case, script adapter.Script, caseNo in
 			}
 		}()
 	} else {
+		if caseNo%4 == 1 {
+			c01ScribbleEncodings(c, cs.args)
+		}
 		out, panicked = adapter.SafeCall(mc.u, op.Name, cs.serial, cs.args, aux)
 	}
 	c.Res.Eval(1)
@@ -484,4 +489,39 @@ func c01Zone(c *Ctx) {
 		c01Check(c, clients[r.Pick(2)], c01Case{op, serial, a, p}, func(adapter.Invocation) ([][]byte, error) { return [][]byte{reply}, nil }, int64(20_000_000+i), "zone/"+zone)
 	}
 	c.Res.Count("zone:transition-days", int64(len(days)))
+}
+
+// c01ScribbleEncodings: before the call the application encodes the very dates and times it is about to pass - with the public
+// encoders of the value types and of the BCD package - and overwrites the byte slices it got back (they are its own: "a newly
+// allocated slice"). What the call then sends is the protocol encoding all the same.
+func c01ScribbleEncodings(c *Ctx, args rm.Vals) {
+	defer func() { recover() }()
+	scribble := func(b []byte) {
+		for i := range b {
+			b[i] ^= 0x5a
+		}
+	}
+	for _, v := range args {
+		switch v.K {
+		case rm.Date:
+			if v.Zero || v.Y < 1 {
+				continue
+			}
+			if b, err := types.ToDate(v.Y, time.Month(v.Mo), v.D).MarshalUT0311L0x(); err == nil {
+				scribble(b)
+			}
+			if p, err := bcd.Encode(fmt.Sprintf("%04d%02d%02d", v.Y, v.Mo, v.D)); err == nil && p != nil {
+				scribble(*p)
+			}
+			c.Res.Count("encodings-overwritten-by-the-application-before-the-call", 1)
+		case rm.HHmm:
+			if b, err := types.NewHHmm(v.H, v.Mi).MarshalUT0311L0x(); err == nil {
+				scribble(b)
+			}
+			if p, err := bcd.Encode(fmt.Sprintf("%02d%02d", v.H, v.Mi)); err == nil && p != nil {
+				scribble(*p)
+			}
+			c.Res.Count("encodings-overwritten-by-the-application-before-the-call", 1)
+		}
+	}
 }
